@@ -133,7 +133,7 @@ func TestFn(t *testing.T) {
 	pbt.Main(t, pbt.Prop[FnCase]{
 		ID: "C06", Name: "fn",
 		Rule: "rapid-generated SanitizeOptions (0..4 ranges per class: alphanumeric, single-rune, reversed/empty, overlapping, multi-byte, ranges covering U+FFFD; 0..6 extra characters; replacement incl. multi-byte and not-allowed runes) and input strings (0..4096 bytes built from range end points +-1, extra characters, multi-byte runes and invalid UTF-8 sequences); NewSanitizer(o).Name/Key/Value compared with an independent reference sanitizer; output runes in allowed+replacement, rune count preserved, idempotent, deterministic, valid input unchanged, no-op sanitizer identity. Non-trivial: input has a rune at/next to a range end point or invalid UTF-8. Distinct: FNV-64 of the case JSON.",
-		Gen:  genFn, Run: runFn,
+		Gen:  genFn, Run: runFn, HangAfter: 20 * time.Second,
 	})
 }
 
@@ -278,7 +278,7 @@ func TestScope(t *testing.T) {
 	pbt.Main(t, pbt.Prop[ScopeCase]{
 		ID: "C06", Name: "scope",
 		Rule: "rapid-generated root scopes with generated SanitizeOptions, prefix, separator, root tags, cardinality-metric tags and a derivation of 0..4 SubScope/Tagged steps, one metric of every kind, plain or cached reporter, one report pass; EVERY string reaching the reporter (names, tag keys, tag values, the library's own cardinality metrics included) must consist of allowed runes or the replacement. Non-trivial: >=1 derivation step and at least one input that the reference sanitizer changes. Distinct: FNV-64 of the case JSON.",
-		Gen:  genScope, Run: runScope,
+		Gen:  genScope, Run: runScope, HangAfter: 20 * time.Second,
 	})
 }
 
@@ -332,7 +332,7 @@ func TestPool(t *testing.T) {
 	pbt.Main(t, pbt.Prop[PoolCase]{
 		ID: "C06", Name: "pool",
 		Rule: "free-running mode (real parallelism, -race): 16 goroutines x 20 rounds sanitise 4..16 generated strings through one sanitizer (shared buffer pool); each result compared with the sequential reference; race detector on. Non-trivial: at least one input needed a buffer (was changed).",
-		Gen:  genPool, Run: runPool, Retries: 30,
+		Gen:  genPool, Run: runPool, Retries: 30, HangAfter: 60 * time.Second,
 	})
 }
 
